@@ -11,12 +11,15 @@ META = dict(
         'cannot survive into the stored pass - independent of the (randomised) manifest entry order. K3 sibling '
         'rule: every ProcessPubPoint::restart implementation clears every collection its add_* methods push into '
         '(set of pushed Vec fields is a subset of the cleared fields). K1 in process_collected: an Ok(Ok(_)) result '
-        'is produced only on the Ok edge of StoredPoint::update, never after an Abort.'),
+        'is produced only on the Ok edge of StoredPoint::update, never after an Abort. Fallback state: every field of '
+        'engine::PubPoint that any body reachable from process_collected writes (resolved field owners in MIR; today '
+        'metrics, processor, log) is reset in PubPoint::process on every path to the fallback process_stored (whole-field '
+        'assignment, or restart() for the processor); the log book is the one listed accumulator.'),
     decides='no payload of an abandoned fetched manifest is kept when falling back to stored data, on every path',
     undecided='semantics of processors outside this crate',
     trusted_base=['rustc MIR construction + callee resolution'],
     rules=['K2 restart between process_collected and process_stored', 'K3 restart clears all pushed collections',
-           'K1 Ok(Ok) only on Ok edge of store update'],
+           'K1 Ok(Ok) only on Ok edge of store update', 'K2 every PubPoint field written by the collected attempt is reset before the stored pass'],
 )
 
 
@@ -42,6 +45,63 @@ def rule_restart_on_fallback(ctx):
                       'is kept and mixed with the stored object set' % ps.loc(),
                       loc=ps.loc(), path=fmt_path(b, p))
             ctx.sample(dict(process_collected=pc.loc(), process_stored=ps.loc(), restart=[r.loc() for r in good]))
+
+
+ACCUMULATING = {
+    'log': 'diagnostic log book of the publication point: messages of the abandoned attempt are kept on purpose',
+}
+
+
+def rule_fallback_state(ctx):
+    """Every field of engine::PubPoint that the collected attempt can modify is reset before the stored pass."""
+    b = ctx.body('engine::PubPoint::process')
+    pcs = b.calls('engine::PubPoint::process_collected')
+    pss = b.calls('engine::PubPoint::process_stored')
+    # bodies reachable from process_collected inside engine::PubPoint (incl. closures)
+    start = ctx.body('engine::PubPoint::process_collected')
+    seen = {start.nid: start}
+    work = [start]
+    while work:
+        cur = work.pop()
+        nxt = list(ctx.facts.closures_of(cur))
+        for s in cur.calls(None):
+            n = norm(s.callee)
+            if n.startswith('engine::PubPoint::'):
+                nxt += ctx.facts.find(n)
+        for nb in nxt:
+            if nb.nid not in seen and nb.nid.startswith('engine::PubPoint::'):
+                seen[nb.nid] = nb
+                work.append(nb)
+    written = {}
+    for nid, body in seen.items():
+        ctx.bodies.add(nid)
+        for site, how, adt, f, place in field_writes(body):
+            if adt.endswith('engine::PubPoint'):
+                written.setdefault(f, []).append((nid, how, site))
+    ctx.floor('K2', 'PubPoint fields the collected attempt can modify', len(written), 3)
+    for pc in pcs:
+        for ps in pss:
+            if not b.can_reach(pc.bb, ps.bb) or pc.bb == ps.bb:
+                continue
+            for f, ws in sorted(written.items()):
+                if f in ACCUMULATING:
+                    ctx.ok('K2', 'fallback-state:%s' % f, 'not reset on purpose: ' + ACCUMULATING[f])
+                    continue
+                resets = []
+                for site, how, adt, ff, place in field_writes(b):
+                    if adt.endswith('engine::PubPoint') and ff == f and how == 'assign':
+                        resets.append(site.bb)
+                if f == 'processor':
+                    resets += [r.bb for r in b.calls('engine::ProcessPubPoint::restart') if 'processor' in arg_path(r, 0)]
+                pth = b.path_avoiding(ps.bb, avoid_nodes=resets, start=pc.bb) if resets else [pc.bb, ps.bb]
+                ctx.check(pth is None, 'K2', 'fallback-state:%s' % f,
+                          'PubPoint.%s (modified by %s) is reset on every path from the abandoned collected attempt to process_stored'
+                          % (f, sorted(set(w[0].split('::')[-1] for w in ws))[:4]),
+                          'PubPoint.%s is modified while the fetched manifest is processed (%s) but is not reset before falling back '
+                          'to the stored publication point: what the abandoned attempt left there (e.g. child CA tasks, counters) is '
+                          'mixed into the result of the stored object set'
+                          % (f, sorted(set('%s:%s' % (w[0].split('::')[-1], w[1]) for w in ws))[:4]),
+                          loc=ps.loc(), path=fmt_path(b, pth) if pth else None)
 
 
 def rule_restart_impls(ctx):
@@ -107,4 +167,4 @@ def rule_no_ok_after_abort(ctx):
     ctx.floor('K1', 'Ok(Ok(_)) returns in process_collected', n, 2)
 
 
-RULES = [rule_restart_on_fallback, rule_restart_impls, rule_no_ok_after_abort]
+RULES = [rule_fallback_state, rule_restart_on_fallback, rule_restart_impls, rule_no_ok_after_abort]
